@@ -6,7 +6,10 @@ id="$1"; patch="$(readlink -f "$2")"; tier="${3:-quick}"
 d="/tmp/mut-$id-$$"
 rm -rf "$d"; cp -r /repo "$d"
 if ! (cd "$d" && grep -v '^# ' "$patch" | git apply --whitespace=nowarn -); then echo "MUTANT $id $(basename $patch): PATCH-FAILED"; rm -rf "$d"; exit 2; fi
-out="$(cd /verif && VERIF_REPO="$d" VERIF_ROOT=/verif ./check "$id" "$tier" 2>&1)"; rc=$?
+# private VERIF_ROOT: evidence/ and replays/ of the real tree are not overwritten by mutant runs
+r="/tmp/mutroot-$id-$$"; mkdir -p "$r"; cp /verif/known_findings.json "$r/"
+out="$(cd /verif && VERIF_REPO="$d" VERIF_ROOT="$r" ./check "$id" "$tier" 2>&1)"; rc=$?
+rm -rf "$r"
 tag="$(echo "$d" | md5sum | cut -c1-10)"; rm -rf "$d" "/verif/.work/mod-$tag" /verif/.work/bin/*-"$tag" /verif/.work/bin/*-"$tag"-race 2>/dev/null
 kinds="$(echo "$out" | grep '^violation kinds' | cut -c1-300)"
 if [ $rc -eq 1 ]; then echo "MUTANT $id $(basename $patch) [$tier]: CAUGHT $kinds"; 
